@@ -28,13 +28,16 @@ def make_scenarios(rng, tier):
         # then REJECTED requests on the instances that have just served a and b (invalid n/m, no existing name): whatever map they
         # are handed must contain nothing of a or b
         c = b
-        for meth, kw in (("ExecuteNSortMConcurrent", {"n": 0, "m": 1}), ("ExecuteSelectedNSortMConcurrent", {"n": 1, "m": 1, "names": ["pa", "zz"]}),
-                         ("ExecuteSelectedNConcurrentMSort", {"n": 5, "m": 1, "names": ["pa"]}), ("ExecuteSelectedRules", {"names": ["zz"]})):
-            for _ in range(2):
-                c += 1
-                st = req_step(c, meth, names, hold_at="")
-                st.update(kw)
-                sc["steps"].append(st)
+        for meth, kw in (("ExecuteSelectedNSortMConcurrent", {"n": 1, "m": 1, "names": ["pa", "zz"]}), ("ExecuteNSortMConcurrent", {"n": 0, "m": 1}),
+                         ("ExecuteSelectedNConcurrentMSort", {"n": 5, "m": 1, "names": ["pa"]}), ("ExecuteSelectedRules", {"names": ["zz"]}),
+                         ("ExecuteNConcurrentMConcurrent", {"n": 2, "m": 9}), ("ExecuteSelectedNConcurrentMConcurrent", {"n": 1, "m": 2, "names": ["pa", "pb", "zz"]})):
+            # each rejected request directly after a SERVED one (the pool hands the same instance out again)
+            c += 1
+            sc["steps"].append(req_step(c, "Execute", names, hold_at=""))
+            c += 1
+            st = req_step(c, meth, names, hold_at="")
+            st.update(kw)
+            sc["steps"].append(st)
         scs.append(sc)
         sid += 1
     # the same pairing with FAILING rules next to the held one (pb fails, pc panics while pa is held at its gate): a call must
